@@ -86,6 +86,8 @@ PROPS = {
         'bounded_standins': [
             {'oracle': 'incan::static_type', 'cases': 1176, 'function': 'TypeChecker: annotated let / return / call argument of a binary expression',
              'bound': 'exhaustive over 7 operators x int/float operand kinds x int/float annotation x 7 right-operand forms (variable, const, literal, 0, negative literal, parenthesised, double minus) x 3 binding positions; one fixed program shape'},
+            {'oracle': 'incan::emit_promotion', 'cases': 576, 'function': 'lowering (operand typing, compound-assignment desugaring) + emit_binop_expr for + - * and **',
+             'bound': 'exhaustive over 4 operators x 4 left forms (int/float variable, int/float field) x 9 right forms (variables, fields, len(), index, literals) x plain/compound x flat / inner block shadowing outer variables of the other kind; checks which operands are promoted / pow vs powf in the generated Rust'},
             {'oracle': 'incan::compound_assign', 'cases': 24, 'function': 'TypeChecker::check_statement, CompoundAssignment arm',
              'bound': 'exhaustive over 6 compound operators x int/float target x int/float value; one fixed program shape'},
         ],
@@ -100,6 +102,11 @@ PROPS = {
         'kani': [],
         'not_covered': [
             'call sites in src/lsp/backend.rs that pass spans to span_to_range / positions to position_to_offset',
+        ],
+        # compile_error_to_diagnostic builds lsp_types::Diagnostic / Url values (external crates): bounded stand-in on the real function
+        'bounded_standins': [
+            {'oracle': 'lsp::diagnostic_range', 'cases': 12000, 'function': 'compile_error_to_diagnostic',
+             'bound': 'exhaustive over 13 fixed documents (ASCII, multi-byte, astral, LF/CRLF, empty lines) x every (start, end) in 0..=len+1 plus two huge offsets; checks the range and every related-information range'},
         ],
         'assumptions': [
             'A2: documents have fewer than 2^32 characters (LSP positions are u32) and fewer than usize::MAX bytes',
